@@ -2,6 +2,7 @@ import TucanProofs.Lemmas.Hill
 import TucanProofs.Lemmas.NxEdges
 import TucanProofs.Lemmas.RoundTripPipeline
 import TucanProofs.Lemmas.FilesMol
+import TucanProofs.Lemmas.MoreExamples
 /-!
 # C05 — every emitted string obeys the published grammar and canonical layout
 
@@ -101,5 +102,8 @@ theorem C05_attribute_blocks_ascending (m : Graph) (hw : m.WF) :
   split at hb' <;> simp at hb'
   subst hb; subst hb'
   exact haa
+
+/-- non-vacuity of `C05_molfile_string_is_sentence` -/
+example : FilesExample.mol.Conformant := MoreExamples.mol_conformant
 
 end Tucan
